@@ -150,8 +150,22 @@ JudgeInv(e, c2) ==
          ELSE Tag(Cache[c2][1] = e.proj.hash, "Inv.RootHistoryIndependent") \o FullInv(e, c2)
     ELSE FullInv(e, c2)
 
+(* A large family (thousands of fixed-length keys, 33-byte values): one NodeDatabase.Commit that  *)
+(* spans several batch writes, then the root re-opened on a fresh NodeDatabase over the disk      *)
+(* store.  The reload clause of the property on a content the key universe cannot express: every   *)
+(* pair reads back, iteration yields exactly the pairs in ascending order, and the root reported   *)
+(* before the flush = root of the reloaded trie = digest of the structure found on disk under the  *)
+(* harness's own primitives = root of a fresh real trie filled in sorted order.                    *)
+JudgeBulk(e) ==
+  LET b == e.bulk IN
+  Tag(b.panic = "" /\ ~b.commitErr /\ ~b.flushErr, "Inv.CallCompletes") \o
+  Tag(~b.openErr /\ b.missing = 0 /\ b.wrong = 0, "Inv.BulkReadsAfterReload") \o
+  Tag(~b.openErr /\ b.iterated = b.n /\ b.iterWrong = 0 /\ b.ascending, "Inv.BulkIterationAfterReload") \o
+  Tag(b.rootReload = b.rootLive /\ b.ref = b.rootLive /\ b.fresh = b.rootLive, "Inv.BulkRootAfterReload")
+
 Judge(e) ==
   LET c2 == Obs(e) IN
+  IF e.event = "Bulk" THEN JudgeBulk(e) ELSE
   Tag(~e.panicked /\ e.proj.panic = "", "Inv.CallCompletes") \o
   (IF ~Sane(c2) THEN <<"Inv.ReadsKnownValue">>
    ELSE JudgeStep(e, c2) \o JudgeInv(e, c2) \o
@@ -162,6 +176,7 @@ Judge(e) ==
 (* prefix of another (known finding), and must neither block the cache nor hide other tags.    *)
 JudgeByteOrder(e) ==
   LET c2 == Obs(e) IN
+  IF e.event = "Bulk" THEN <<>> ELSE
   IF ~Sane(c2) \/ e.proj.iterErr THEN <<>>
   ELSE Tag(e.proj.iter = IterBytesOf(c2), "Inv.IterationAscendingByteOrder")
 
@@ -186,7 +201,7 @@ TraceNext ==
          /\ opsSoFar' = IF e.event = "Reset" THEN e.ops
                          ELSE IF e.fan THEN opsSoFar ELSE Append(opsSoFar, <<e.event, e.k, e.v>>)
          /\ bad' = bad \o Fresh(e.event, j \o JudgeByteOrder(e))
-         /\ IF j = <<>> /\ c2 \notin DOMAIN Cache THEN TLCSet(1, Cache @@ (c2 :> ProjKey(e.proj))) ELSE TRUE
+         /\ IF e.event # "Bulk" /\ j = <<>> /\ c2 \notin DOMAIN Cache THEN TLCSet(1, Cache @@ (c2 :> ProjKey(e.proj))) ELSE TRUE
 
 TraceSpec == TraceInit /\ [][TraceNext]_tvars
 
